@@ -111,6 +111,8 @@ let parse_sig line : program =
     | "gasg" -> let a = ni () in let b = ni () in OGAssign (a, b)
     | "gmasg" -> let a = ni () in let b = ni () in OGMoveAssign (a, b)
     | "gdel" -> let g = ni () in OGDel g
+    | "gshare" -> let g = ni () in OGShare g
+    | "grel" -> let g = ni () in OGRelease g
     | "gconn" ->
         let g = ni () in let s = ni () in let c = int_of_string (next ()) in
         let front = nb () in let mv = nb () in
